@@ -286,6 +286,9 @@ Family(name) == CASE name = "Depth1"  -> Depth1Set(0)
                   [] name = "LeafVarF" -> LeafVarFSet(0)
                   [] name = "Mid3"    -> Mid3Set(0)
                   [] name = "Typed"   -> TypedSet(0)
+                  [] name = "OCQ"     ->      \* bases of the open-content scope
+                       GroupsOver(ElemLeaves({"a", "b"}, {<<1, 1>>, <<0, 1>>, <<0, Inf>>}), {"s", "c"},
+                                  {<<1, 1>>, <<0, Inf>>})
 
 ------------------------------------------------------------------------------
 (* The machine                                                                *)
@@ -390,6 +393,60 @@ EmitR == IF word = <<>> \/ NotIncluded
          THEN PrintT(ToJson([b |-> model[1], d |-> model[2], label |-> model[3], w |-> word,
                              bad |-> NotIncluded]))
          ELSE TRUE
+
+------------------------------------------------------------------------------
+(* XSD 1.1 open content (Element Sequence Locally Valid (Complex Content),      *)
+(* clauses 1.2 and 1.3).  A type with content model P and open content <mode, W>  *)
+(* accepts S iff S splits into S1 (valid for P) and S2 (every element admitted by  *)
+(* W) - S2 after S1 in suffix mode, interleaved with it in interleave mode - such   *)
+(* that an element goes to the open content ONLY IF it cannot continue a path in    *)
+(* P (clauses 1.2.3 / 1.3.3).  That precedence makes the greedy machine below the   *)
+(* operational reading; OCValid is the clause text (existential split).            *)
+(* Variables are reused: model = <<P, mode, W>>, cfgs = configurations of P,         *)
+(* lang = phase ({} in the model, {"suffix"} after the first open-content element    *)
+(* in suffix mode, {"dead"} when no reading is left), attr = attribution with        *)
+(* <<"oc">> for elements that went to the open content.                              *)
+OCInit == /\ model \in ModelSet
+          /\ word = <<>> /\ cfgs = {Conv(model[1], <<>>)} /\ lang = {} /\ attr = <<>>
+OCChild(a) ==
+  /\ Len(word) < MaxLen
+  /\ word' = Append(word, a)
+  /\ UNCHANGED model
+  /\ IF lang = {} /\ StepLang(cfgs, a) # {}
+       THEN cfgs' = StepLang(cfgs, a) /\ lang' = {} /\ attr' = Append(attr, Attrib(cfgs, a))
+     ELSE IF lang # {"dead"} /\ a \in WildDen(model[3]) /\ (model[2] = "interleave" \/ lang = {"suffix"} \/ Accepting(cfgs))
+       THEN /\ cfgs' = cfgs /\ attr' = Append(attr, {<<"oc">>})
+            /\ lang' = IF model[2] = "suffix" THEN {"suffix"} ELSE lang
+     ELSE cfgs' = {} /\ lang' = {"dead"} /\ attr' = Append(attr, {})
+OCNext == \E a \in Syms : OCChild(a)
+OCSpec == OCInit /\ [][OCNext]_vars
+OCAccepting == lang # {"dead"} /\ Accepting(cfgs)
+
+(* the clause text *)
+RECURSIVE RunLang(_, _)
+RunLang(C, w) == IF w = <<>> THEN C ELSE RunLang(StepLang(C, Head(w)), Tail(w))
+HasPath(m, w) == RunLang({Conv(m, <<>>)}, w) # {}
+Restrict(w, I) == LET RECURSIVE B(_, _)
+                      B(j, acc) == IF j > Len(w) THEN acc ELSE B(j + 1, IF j \in I THEN acc ELSE Append(acc, w[j]))
+                  IN B(1, <<>>)
+OCValid(m, mode, wc, w) ==
+  IF mode = "suffix"
+    THEN \E i \in 0..Len(w) :
+           LET s1 == SubSeq(w, 1, i)  s2 == SubSeq(w, i + 1, Len(w)) IN
+             /\ InL(Conv(m, <<>>), s1)
+             /\ (s2 # <<>> => ~HasPath(m, Append(s1, s2[1])))
+             /\ \A j \in DOMAIN s2 : s2[j] \in WildDen(wc)
+    ELSE \E I \in SUBSET (DOMAIN w) :
+           /\ InL(Conv(m, <<>>), Restrict(w, I))
+           /\ \A j \in I : /\ w[j] \in WildDen(wc)
+                           /\ ~HasPath(m, Append(Restrict(SubSeq(w, 1, j - 1), I), w[j]))
+OCAgree == OCAccepting = OCValid(model[1], model[2], model[3], word)
+(* open content only adds: whatever P accepts stays accepted *)
+OCExtends == InL(Conv(model[1], <<>>), word) => OCAccepting
+OCFamily(name) == {<<m, mode, wc>> : m \in Family(name), mode \in {"interleave", "suffix"},
+                                     wc \in {"any", "other", "tns"}}
+EmitOC == PrintT(ToJson([m |-> model[1], mode |-> model[2], wc |-> model[3], w |-> word,
+                         acc |-> OCAccepting, plain |-> InL(Conv(model[1], <<>>), word), attr |-> attr]))
 
 ------------------------------------------------------------------------------
 (* Emission (obligation B)                                                    *)
